@@ -1553,6 +1553,8 @@ class SX:
             for s in fa:
                 res.extend(self.eval_x(n.orelse, s, frame))
             return res
+        if isinstance(n, ast.Call) and self.loop_handler is not None and (got := self._reduction_call(n, st, frame)) is not None:
+            return got
         if isinstance(n, ast.Call):
             return self.call(n, st, frame)
         if isinstance(n, (ast.Tuple, ast.List)):
@@ -1636,6 +1638,77 @@ class SX:
         if isinstance(n, (ast.ListComp, ast.GeneratorExp, ast.Dict, ast.Lambda, ast.DictComp, ast.SetComp, ast.Set)):
             return [(st, Unk(ast.unparse(n)[:80]))]
         raise CannotDecide(f'expression kind {type(n).__name__}: {ast.unparse(n)[:60]}')
+
+    def _reduction_call(self, n, st, frame):
+        """functools.reduce(operator.mul | imul | add | iadd, <generator over a sequence>, init), math.prod(<generator>) and
+        sum(<generator>): the same reduction as the accumulating for-loop - evaluated as that loop (`acc = init; for x in it:
+        if cond: acc *= elt`) by the loop handler, so that both spellings give the same canonical atom"""
+        f = n.func
+        fname = f.id if isinstance(f, ast.Name) else (f.attr if isinstance(f, ast.Attribute) and isinstance(f.value, ast.Name)
+                                                       and f.value.id in ('functools', 'math', 'np', 'numpy') else None)
+        if fname not in ('reduce', 'prod', 'sum') or n.keywords and any(k.arg not in ('start', 'initial') for k in n.keywords) \
+                or fname in self.model.functions:
+            return None
+        args = list(n.args)
+        if fname == 'reduce':
+            if len(args) not in (2, 3):
+                return None
+            opn = args[0]
+            oname = opn.id if isinstance(opn, ast.Name) else (opn.attr if isinstance(opn, ast.Attribute) else None)
+            if oname in ('mul', 'imul'):
+                op = ast.Mult()
+            elif oname in ('add', 'iadd'):
+                op = ast.Add()
+            else:
+                return None
+            if isinstance(opn, ast.Name) and opn.id in st.env:
+                return None
+            gen, init = args[1], (args[2] if len(args) == 3 else None)
+            if init is None:
+                return None
+        else:
+            if not args or len(args) > 2:
+                return None
+            op = ast.Mult() if fname == 'prod' else ast.Add()
+            gen = args[0]
+            init = args[1] if len(args) == 2 else next((k.value for k in n.keywords), None)
+            if init is None:
+                init = ast.Constant(value=1 if fname == 'prod' else 0)
+        if not isinstance(gen, (ast.GeneratorExp, ast.ListComp)) or len(gen.generators) != 1 or gen.generators[0].is_async \
+                or not isinstance(gen.generators[0].target, ast.Name):
+            return None
+        g = gen.generators[0]
+        acc = '<reduction>'
+        body = [ast.AugAssign(target=ast.Name(id=acc, ctx=ast.Store()), op=op, value=gen.elt)]
+        for c in reversed(g.ifs):
+            body = [ast.If(test=c, body=body, orelse=[])]
+        loop = ast.For(target=g.target, iter=g.iter, body=body, orelse=[])
+        ast.copy_location(loop, n)
+        ast.fix_missing_locations(loop)
+        res = []
+        for r in self.eval_x(init, st, frame):
+            if isinstance(r, Outcome):
+                res.append(r)
+                continue
+            s0, v0 = r
+            s1 = s0.copy()
+            s1.env[acc] = v0
+            try:
+                outs = self.loop_handler(self, loop, s1, frame)
+            except CannotDecide:
+                return None
+            if outs is None:
+                return None
+            for o in outs:
+                s2 = o.copy() if isinstance(o, State) else o.state.copy()
+                val = s2.env.pop(acc, None)
+                s2.env.pop(g.target.id, None)
+                if g.target.id in s0.env:
+                    s2.env[g.target.id] = s0.env[g.target.id]
+                if val is None:
+                    return None
+                res.append((s2, val))
+        return res
 
     def _dict_comprehension(self, n, st, frame):
         """{k: v for x in <concrete list>}: the (key, value) pairs are the list comprehension with the same generator; keys are text
@@ -1965,6 +2038,9 @@ class SX:
         def one(sub, q):
             if isinstance(q, ast.MatchAs) and q.pattern is None and q.name is None:
                 return ast.Constant(value=True)
+            if isinstance(q, ast.MatchSingleton) and isinstance(sub, (ast.Name, ast.Attribute)):
+                # `case None:` / `case True:` compare by identity
+                return ast.Compare(left=sub, ops=[ast.Is()], comparators=[ast.Constant(value=q.value)])
             classes = SX._class_patterns(q)
             if classes is None or not isinstance(sub, (ast.Name, ast.Attribute)):
                 return None
@@ -2022,6 +2098,8 @@ class SX:
             if p.value is None:
                 if isinstance(v, NoneV):
                     return st
+                if isinstance(v, Q) and self.none_name(v) is not None:
+                    return self._undecided(p)          # a typed atom (an Optional field) may be None at run time
                 if isinstance(v, (N, Q, Sv, Bv, Tv, Dyn)):
                     return None if not isinstance(v, Dyn) else self._undecided(p)
             if isinstance(v, Bv) and isinstance(p.value, bool):
